@@ -73,9 +73,10 @@ WriteM(st, ch, fg, bg, x, y) ==
   IF ~(inX /\ C!InGrid(y, Rows)) THEN st
   ELSE LET X == W32!ToNat(x)  Y == W32!ToNat(y) IN
        IF IsFb THEN WrRows(st, 0, FbOffset((X - 1) * g.gw, (Y - 1) * g.gh), ch * g.bpr * g.gh, PackM(fg), PackM(bg))
-       ELSE LET bg2 == IF bg > 15 \/ (Bug = "VgaBg15" /\ bg = 15) THEN 0 ELSE bg
-                fg2 == IF fg > 15 THEN 7 ELSE fg
-            IN Set(st, (Y - 1) * g.w + (X - 1), ((bg2 * 16 + fg2) * 256) + ch)
+       ELSE LET lim == IF Bug = "VgaColor16" THEN 16 ELSE 15          \* maxColorIndex
+                bg2 == IF bg > lim \/ (Bug = "VgaBg15" /\ bg = 15) THEN g.dbg ELSE bg
+                fg2 == IF fg > lim THEN g.dfg ELSE fg
+            IN Set(st, (Y - 1) * g.w + (X - 1), ((((bg2 * 16) | fg2) * 256) + ch) % 65536)   \* uint16 arithmetic
 
 \* Fill: clamp the origin, clip the extent, paint
 RECURSIVE FillRow(_, _, _, _)
@@ -98,7 +99,7 @@ FillM(st, x, y, w, h, fg, bg) ==
   IN IF Wd = -1 THEN st                                        \* row end wraps below the row start: nothing is painted
      ELSE IF Ht = -1 THEN [st EXCEPT !.panic = TRUE]           \* the row loop runs off the end of the buffer
      ELSE IF IsFb THEN FillRows(st, Ht * g.gh, FbOffset((X - 1) * g.gw, (Y - 1) * g.gh), Wd * g.gw * Bpp, PackM(bg))
-     ELSE FillRows(st, Ht, (Y - 1) * g.w + (X - 1), Wd, <<((bg * 16 + fg) * 256) + g.clear>>)
+     ELSE FillRows(st, Ht, (Y - 1) * g.w + (X - 1), Wd, <<((((bg * 16) | fg) * 256) % 65536) + g.clear>>)                  \* uint16 arithmetic
 
 \* Scroll (loops that read ahead of what they overwrite = simultaneous assignment)
 ScrollM(st, dir, n) ==
@@ -156,7 +157,7 @@ Init ==
   /\ fb = Fb0(g)
   /\ nops = 0 /\ script = <<>>
   /\ LET e == [k |-> "init", cons |-> g.cons, w |-> g.w, h |-> g.h, pitch |-> g.pitch, bpp |-> g.bpp, ci |-> g.ci,
-               gw |-> g.gw, gh |-> g.gh, bpr |-> g.bpr, offY |-> g.offY, clear |-> g.clear, fd |-> g.fd, pal |-> g.pal,
+               gw |-> g.gw, gh |-> g.gh, bpr |-> g.bpr, offY |-> g.offY, clear |-> g.clear, dfg |-> g.dfg, dbg |-> g.dbg, fd |-> g.fd, pal |-> g.pal,
                rows |-> RowsOf(fb), cols |-> Cols, nrows |-> Rows]
          m == C!MonInit(C!S0, e)
      IN s = m.s /\ mismatch = C!FirstFail(0, m.cs)
